@@ -4,4 +4,7 @@ var vpHarnesses = map[string]func(){
 	"VP_C05_TreeRoundTrip": VP_C05_TreeRoundTrip,
 	"VP_C02_WriteTree":     VP_C02_WriteTree,
 	"VP_C07_Diff":          VP_C07_Diff,
+	"VP_Smoke":             VP_Smoke,
+	"VP_C02_Commit":        VP_C02_Commit,
+	"VP_C03_Step":          VP_C03_Step,
 }
